@@ -98,7 +98,9 @@ struct Outcome {
 }
 
 /// Build the reply text for the batch whose wire entries are `(id, tag)` in request order.
-fn craft_reply(c: &Case, entries: &[(Value, String)], r: &mut Rng) -> (String, Vec<bool>) {
+/// `busy`: ids of other operations that are in flight on the same client (an answer under one of those is an answer to that
+/// operation, not a foreign one).
+fn craft_reply(c: &Case, entries: &[(Value, String)], busy: &[u64], r: &mut Rng) -> (String, Vec<bool>) {
 	let n = entries.len();
 	let mut nonce = 0u64;
 	let mut answer = |pos: usize, id: Value| -> String {
@@ -142,7 +144,21 @@ fn craft_reply(c: &Case, entries: &[(Value, String)], r: &mut Rng) -> (String, V
 		}
 		Defect::ForeignBelow | Defect::ForeignAbove => {
 			let start = entries.iter().map(|e| num(&e.0)).min().unwrap_or(0);
-			let foreign = if c.defect == Defect::ForeignBelow { start.checked_sub(1) } else { Some(start + n as u64) };
+			// the id next to the batch's own range - or, when another operation in flight owns that one, the first free id
+			// beyond everything in flight
+			let foreign = if c.defect == Defect::ForeignBelow {
+				let mut f = start.checked_sub(1);
+				while f.is_some_and(|x| busy.contains(&x)) {
+					f = f.and_then(|x| x.checked_sub(1));
+				}
+				f
+			} else {
+				let mut f = start + n as u64;
+				while busy.contains(&f) {
+					f += 1;
+				}
+				Some(f)
+			};
 			let victim = c.perm[0];
 			for &p in &c.perm {
 				if p == victim {
@@ -399,7 +415,17 @@ async fn run_ws(c: &Case) -> (Outcome, Vec<(String, String)>) {
 			_ => other_msgs.push(m),
 		}
 	}
-	let (reply, answered) = craft_reply(c, &test_entries, &mut r);
+	let busy: Vec<u64> = other_msgs
+		.iter()
+		.flat_map(|m| match m {
+			WireMsg::Single(q) => vec![q.id.clone()],
+			WireMsg::Batch(reqs) => reqs.iter().map(|q| q.id.clone()).collect(),
+			WireMsg::Unparsable(_) => vec![],
+		})
+		.flatten()
+		.filter_map(|v| v.as_u64().or_else(|| v.as_str().and_then(|s| s.parse().ok())))
+		.collect();
+	let (reply, answered) = craft_reply(c, &test_entries, &busy, &mut r);
 	if let Some(late) = abandoned_reply.take() {
 		srv.push_text(late);
 		tokio::time::sleep(Duration::from_millis(1)).await;
@@ -491,7 +517,7 @@ async fn run_http(c: &Case) -> Outcome {
 		match parse_wire(&body) {
 			WireMsg::Batch(reqs) => {
 				let entries: Vec<(Value, String)> = reqs.iter().map(|q| (q.id.clone().unwrap_or(Value::Null), q.tag.clone().unwrap_or_default())).collect();
-				let (reply, answered) = craft_reply(&c2, &entries, &mut r);
+				let (reply, answered) = craft_reply(&c2, &entries, &[], &mut r);
 				*sh.lock().unwrap() = (reply.clone(), answered, entries.iter().map(|e| e.0.clone()).collect());
 				(200, reply)
 			}
